@@ -9,4 +9,6 @@ import Bw.Props.C04
 #print axioms Bw.Props.C04.foldl_no_fault
 #print axioms Bw.Props.C04.commentsOf_no_fault
 #print axioms Bw.Props.C04.registered_parsers_known
+#print axioms Bw.Props.C04.scan_terminates
+#print axioms Bw.Props.C04.tags_consume
 #print axioms Bw.Props.C04.pipeline_total
